@@ -471,7 +471,7 @@ func c02Run(w *verifrt.World, tier Tier) *RunResult {
 		delta := mrs[min(seen, len(mrs)):]
 		seen = len(mrs)
 		var ranNow []int
-		adopt := false // the rest of a phase after a ctl:ruleEngine switch is unspecified: take what happened
+		adopt := false   // the rest of a phase after a ctl:ruleEngine switch is unspecified: take what happened
 		offOnly := false // ... and the switch to Off was the only mode switch that fired in that phase
 		byPhase := map[int][]int{}
 		for _, mr := range delta {
